@@ -215,6 +215,13 @@ def undirected_items(tier):
                 if tier == "quick" and not any(len(e) == 3 for e in es):
                     continue
                 yield ("U", (4, tuple(sorted(lab.values())), tuple(tuple(lab[v] for v in e) for e in es), "rotated"))
+    # size-1 hyperedges (and larger ones) next to the pattern must be ignored, also for order 4
+    for r in (1, 2):
+        for es in itertools.combinations(c4, r):
+            if any(len(e) == 3 for e in es):
+                for single in ((1,), (4,)):
+                    yield ("U", (4, U4, es + (single,), "sorted"))
+                yield ("U", (4, (1, 2, 3, 4, 5, 6), es + ((2,), (1, 2, 3, 4, 5), (3, 4, 5, 6, 1, 2)), "reversed"))
     U5 = (1, 2, 3, 4, 5)
     c5 = [c for r in (2, 3, 4) for c in itertools.combinations(U5, r)]
     if tier == "quick":
